@@ -300,10 +300,10 @@ U_C10_Elem(zz) == {DeclP([C0 |-> Class(DefaultOpts, <<U1("n"), RepCountF("r", e,
               \cup {DeclP([C0 |-> Class(DefaultOpts, <<RepUntilF("r", U1("e"), Lam(EBin("eq", EIdx(EF("r"), EC(-1)), EC(0))), NoCond, al), U1("z")>>)],
                           {0, 1, 2}, 6, {0}) : al \in {2, 3}}
 \* a later field placed BEFORE an earlier one (no overlap): output order differs from position order
-U_C10_Back(zz) == {DeclP([C0 |-> Class(DefaultOpts, <<MvField(IntF("a", 2, FALSE, "default"), [kind |-> "at", arg |-> SzConst(p1), ref |-> r]),
-                                                  MvField(U1("b"), [kind |-> "at", arg |-> SzConst(p2), ref |-> r]), U1("c")>>)],
+U_C10_Back(zz) == {DeclP([C0 |-> Class(DefaultOpts, <<MvField(IntF("a", 2, FALSE, "default"), [kind |-> "at", arg |-> SzConst(qa), ref |-> r]),
+                                                  MvField(U1("b"), [kind |-> "at", arg |-> SzConst(qb), ref |-> r]), U1("c")>>)],
                      {0, 1, 2}, 5, IF r = "begins" THEN {0} ELSE {0, 1}) :
-                  p1 \in {2, 3}, p2 \in {0, 1}, r \in {"innermost-pkt", "begins"}}
+                  qa \in {2, 3}, qb \in {0, 1}, r \in {"innermost-pkt", "begins"}}
               \cup {DeclP([C0 |-> Class(DefaultOpts, <<U1("h"), IntF("a", 2, FALSE, "default"),
                                                        MvField(U1("b"), [kind |-> "shift", arg |-> SzConst(0 - k), ref |-> "current-offset"]),
                                                        U1("c")>>)], {0, 1, 2}, 5, {0, 1}) : k \in {1, 2, 3}}
@@ -447,18 +447,17 @@ U_C01_Overlap(zz) == {DeclP([C0 |-> Class(DefaultOpts, <<U1("a"), DataF("b", SzC
                                                     MvField(DataF("c", SzField("a")), [kind |-> "at", arg |-> g, ref |-> "innermost-pkt"]),
                                                     MvField(U1("d"), [kind |-> "at", arg |-> SzConst(h), ref |-> "begins"])>>)],
                         {0, 1, 2, 46}, 5, {0}) : g \in {SzConst(0), SzConst(2), SzConst(3), SzConst(4)}, h \in {1, 3, 5}}
-\* placed high first, then back at the start, then fields that follow each other into the first one
-U_C01_Overlap3(zz) == {DeclP([C0 |-> Class(DefaultOpts, <<MvField(DataF("f", SzConst(2)), [kind |-> "at", arg |-> SzConst(p), ref |-> "innermost-pkt"]),
+U_C01_Overlap3(zz) == {DeclP([C0 |-> Class(DefaultOpts, <<MvField(DataF("f", SzConst(2)), [kind |-> "at", arg |-> SzConst(hp), ref |-> "innermost-pkt"]),
                                                          MvField(U1("k"), [kind |-> "at", arg |-> SzConst(0), ref |-> "innermost-pkt"]),
                                                          DataF("l", SzMarker(<<0>>, FALSE, TRUE)), U1("z")>>)],
-                             {0, 1, 65}, 6, {0}) : p \in {2, 3, 4}}
+                             {0, 1, 65}, 6, {0}) : hp \in {2, 3, 4}}
 U_C01_OverlapEm(zz) == {DeclP([C0 |-> Class(DefaultOpts, <<MvField(EmF("e"), [kind |-> "at", arg |-> SzConst(2), ref |-> "innermost-pkt"]),
                                                           MvField(DataF("b", SzConst(2)), [kind |-> "at", arg |-> SzConst(3), ref |-> "innermost-pkt"]),
                                                           MvField(DataF("c", SzConst(n)), [kind |-> "at", arg |-> SzConst(1), ref |-> "innermost-pkt"])>>)],
                               {0, 1, 46}, 5, {0, 1}) : n \in {2, 4}}
-U_C01_Before(zz) == {DeclP([C0 |-> Class(DefaultOpts, <<MvField(DataF("a", SzConst(n1)), [kind |-> "at", arg |-> SzConst(p1), ref |-> "innermost-pkt"]),
-                                                     MvField(DataF("b", SzConst(n2)), [kind |-> "at", arg |-> SzConst(p2), ref |-> "innermost-pkt"])>>)],
-                       {0, 1, 46}, 6, {0, 1}) : n1 \in {1, 2}, p1 \in {2, 4}, n2 \in {1, 3, 4}, p2 \in {0, 1, 2}}
+U_C01_Before(zz) == {DeclP([C0 |-> Class(DefaultOpts, <<MvField(DataF("a", SzConst(n1)), [kind |-> "at", arg |-> SzConst(qa), ref |-> "innermost-pkt"]),
+                                                     MvField(DataF("b", SzConst(n2)), [kind |-> "at", arg |-> SzConst(qb), ref |-> "innermost-pkt"])>>)],
+                       {0, 1, 46}, 6, {0, 1}) : n1 \in {1, 2}, qa \in {2, 4}, n2 \in {1, 3, 4}, qb \in {0, 1, 2}}
 \* the `root` keyword of callables: the packet that started the operation, read from one and two levels down,
 \* below optional / repeated / selected fields
 RootSel == RefSelF("e", ERoot("w"), <<[key |-> 0, alt |-> IntF("", 1, FALSE, "default")],
@@ -483,7 +482,7 @@ U_C01_Root(zz) == {DeclP([C0 |-> Class(DefaultOpts, <<U1("w"), RefF("s", "C1"), 
 \* on a buffer of its own), flat, one level down, and after bytes have already been written
 ReentHdr == Class(DefaultOpts, <<U1("n"), DataF("v", SzField("n"))>>)
 U_C01_Reent(zz) ==
-    {DeclP([C0 |-> Class(DefaultOpts, <<U1("w"), RefF("h", "C1"), x, U1("z")>>), C1 |-> ReentHdr], {0, 1, 2}, 6, {0, 1}) :
+    {DeclP([C0 |-> Class(DefaultOpts, <<U1("w"), RefF("h", "C1"), x, U1("z")>>), C1 |-> ReentHdr], {0, 1, 2}, 7, {0, 1}) :
         x \in {MvField(DataF("d", SzConst(1)), [kind |-> "at", arg |-> Lam(EBin("add", EPackLen(EF("h")), EC(2))), ref |-> "innermost-pkt"]),
                MvField(U1("d"), [kind |-> "shift", arg |-> Lam(EBin("sub", EPackLen(EF("h")), EC(1))), ref |-> "current-offset"]),
                MvField(U1("d"), [kind |-> "aligned", arg |-> Lam(EBin("add", EPackLen(EF("h")), EC(1))), ref |-> "innermost-pkt"]),
@@ -492,11 +491,11 @@ U_C01_Reent(zz) ==
     \cup {DeclP([C0 |-> Class(DefaultOpts, <<U1("w"), RefF("s", "C2"), U1("z")>>),
                  C2 |-> Class(DefaultOpts, <<U1("t"), RefF("h", "C1"),
                                              MvField(U1("d"), [kind |-> "at", arg |-> Lam(EBin("add", EPackLen(EF("h")), EC(k))), ref |-> "innermost-pkt"])>>),
-                 C1 |-> ReentHdr], {0, 1, 2}, 6, {0}) : k \in {1, 2}}
-U_C01(zz) == U_C01_Overlap3(0) \cup U_C01_Reent(0) \cup U_C08_Shared(0) \cup U_C08_Sel(0) \cup U_C01_Root(0) \cup U_C01_OverlapEm(0) \cup U_C01_Before(0) \cup U_C10_Back(0) \cup U_C01_Data(0) \cup U_C01_Move(0) \cup U_C01_Ctl(0) \cup U_C01_Overlap(0) \cup U_C07_24(0) \cup U_C07_Ctx(0)
+                 C1 |-> ReentHdr], {0, 1, 2}, 7, {0}) : k \in {1, 2}}
+U_C01(zz) == U_C01_Reent(0) \cup U_C08_Shared(0) \cup U_C08_Sel(0) \cup U_C01_Root(0) \cup U_C01_OverlapEm(0) \cup U_C01_Before(0) \cup U_C10_Back(0) \cup U_C01_Data(0) \cup U_C01_Move(0) \cup U_C01_Ctl(0) \cup U_C01_Overlap(0) \cup U_C07_24(0) \cup U_C07_Ctx(0)
 
 \* the every-change subset: every family is represented, the cross products are thinned
-U_C01_Q(zz) == U_C01_Overlap3(0) \cup U_C01_Reent(0) \cup U_C08_Shared(0) \cup U_C08_Sel(0) \cup U_C01_Root(0) \cup U_C01_OverlapEm(0) \cup U_C01_Data(0) \cup U_C01_Overlap(0) \cup U_C07_24(0) \cup U_C01_Before(0) \cup U_C10_Back(0)
+U_C01_Q(zz) == U_C01_Reent(0) \cup U_C08_Shared(0) \cup U_C08_Sel(0) \cup U_C01_Root(0) \cup U_C01_OverlapEm(0) \cup U_C01_Data(0) \cup U_C01_Overlap(0) \cup U_C07_24(0) \cup U_C01_Before(0) \cup U_C10_Back(0)
            \cup {[d EXCEPT !.alpha = {0, 1, 46}] : d \in U_C10_Class(0) \cup U_C10_Elem(0)}
            \cup {[d EXCEPT !.alpha = {0, 2, 46}, !.starts = {0}] : d \in U_C10_Flat(0)}
            \cup U_C08_Until(0) \cup U_C08_Nest(0)
@@ -559,7 +558,6 @@ PickU(n) ==
       [] n = "U_C04_Lone" -> U_C04_Lone(0)
       [] n = "U_C01_Root" -> U_C01_Root(0)
       [] n = "U_C01_Reent" -> U_C01_Reent(0)
-      [] n = "U_C01_Overlap3" -> U_C01_Overlap3(0)
       [] n = "U_C08_Sign" -> U_C08_Sign(0)
       [] n = "U_Wide" -> U_Wide(0)
       [] n = "U_C08" -> U_C08(0)
@@ -583,7 +581,7 @@ PickU(n) ==
       [] n = "U_C01_Q" -> U_C01_Q(0)
       [] n = "U_C14_End" -> U_C14_End(0)
       [] n = "U_Long" -> U_Long(0)
-      [] n = "U_LongC01" -> U_LongSeq(0)
+      [] n = "U_LongC01" -> U_LongSeq(0) \cup U_LongCollide(0)
       [] n = "U_LongC06" -> U_LongRegex(0) \cup U_LongMarker(0)
       [] n = "U_LongC12" -> U_LongCollide(0) \cup U_LongAligned(0)
       [] n = "U_LongSeq" -> U_LongSeq(0)
@@ -593,4 +591,5 @@ PickU(n) ==
       [] n = "U_LongMarker" -> U_LongMarker(0)
       [] n = "U_C14" -> U_C14(0)
       [] n = "U_C14_Q" -> U_C14_Q(0)
+      [] n = "U_C01_Overlap3" -> U_C01_Overlap3(0)
 =============================================================================
